@@ -598,6 +598,12 @@ def combinator_programs():
         [S("search-sorted"), -3, S("inc")], [S("search-sorted"), 5, L([S("i")], [S("probe"), Q(S("i")), S("i")], [S("if"), [S("="), S("i"), 3], [S("car"), 5], []])], [S("search-sorted"), STR("x"), S("inc")],
         [S("search-sorted"), 4, Q(S("nosuch"))], [S("search-sorted"), 6, Q(S("inc"))], [S("search-sorted"), 3, 5],
     ]
+    # a threading step that is re-entered while it is being evaluated (the step calls the function that contains it)
+    forms += [
+        [S("progn"), [S("defun"), S("trec"), [S("n")], [S("if"), [S("<="), S("n"), 0], [S("list"), 0], [S("thread-last"), S("n"), [S("+"), 0], [S("list"), [S("trec"), [S("-"), S("n"), 1]], Q(S("tag"))]]]], [S("trec"), 2]],
+        [S("progn"), [S("defun"), S("tfirst"), [S("n")], [S("if"), [S("<="), S("n"), 0], [S("list"), 0], [S("thread-first"), S("n"), [S("+"), 0], [S("list"), [S("tfirst"), [S("-"), S("n"), 1]], Q(S("tag"))]]]], [S("tfirst"), 2]],
+        [S("progn"), [S("defun"), S("trec5"), [S("n")], [S("if"), [S("<="), S("n"), 0], 0, [S("thread-last"), S("n"), [S("+"), [S("trec5"), [S("-"), S("n"), 1]], 1, 2, 3]]]], [S("trec5"), 3]],
+    ]
     # equal? : values without structural equality (functions, quote objects) are never equal, not even to themselves, and
     # neither is a container that holds one - the same object on both sides included
     forms += [
